@@ -42,15 +42,12 @@ class E3:
         known: {pname: (known_key, classifier(model)->bool)}"""
         self.absorb(eng)
         base = list(sc.cons)
-        o, _ = check.discharge(self.res, f"{name}:witness", "vacuity witness: all threads run to completion in some schedule", bounds,
-                               base + [sc.all_done()], expect_unsat=False, timeout=timeout)
-        o.functions = sorted(eng.functions_executed)
-        o2, _ = check.discharge(self.res, f"{name}:bounds", "loop bounds suffice: no execution reaches an unwinding cut-off", bounds,
-                                base + [sc.reach("unwound")], expect_unsat=True, timeout=timeout)
-        if o2.status == "violation":
-            o2.status, o2.detail = "error", "loop bound too small: an UNWOUND leaf is reachable; " + o2.detail
+        specs = [dict(name=f"{name}:witness", desc="vacuity witness: all threads run to completion in some schedule", bounds=bounds,
+                      cons=base + [sc.all_done()], expect_unsat=False),
+                 dict(name=f"{name}:bounds", desc="loop bounds suffice: no execution reaches an unwinding cut-off", bounds=bounds,
+                      cons=base + [sc.reach("unwound")], expect_unsat=True)]
         for pname, desc, viol, extra in props:
-            def on_model(ob, model, pname=pname):
+            def on_model(ob, model, pname=pname, desc=desc):
                 sched = check.schedule_from_model(eng, sc, model)
                 ob.sample = {"scenario": name, "property": pname, "schedule": [list(map(str, r)) for r in sched][:60]}
                 rdir = os.path.join(REPLAYS, self.pid)
@@ -65,8 +62,16 @@ class E3:
                     ob.status = "known_candidate"
                 if replayer:
                     replayer(ob, sched, pname, model, name)
-            ob, q = check.discharge(self.res, f"{name}:{pname}", desc, bounds, base + list(extra or []) + [sc.all_done(), viol],
-                                    expect_unsat=True, timeout=timeout, on_model=on_model)
+            # a panic query asks for an execution that ends in a panic leaf, so it must not require normal completion
+            must_complete = [] if pname.startswith("no_panic") else [sc.all_done()]
+            specs.append(dict(name=f"{name}:{pname}", desc=desc, bounds=bounds, cons=base + list(extra or []) + must_complete + [viol],
+                              expect_unsat=True, on_model=on_model))
+        results = check.discharge_many(self.res, specs, timeout)
+        results[0][0].functions = sorted(eng.functions_executed)
+        if results[1][0].status == "violation":
+            results[1][0].status = "error"
+            results[1][0].detail = "loop bound too small: an UNWOUND leaf is reachable; " + results[1][0].detail
+        for ob, q in results[2:]:
             if ob.status == "known_candidate":
                 ob.status = "known" if ob.reproduced is not False else "error"
             elif ob.status == "violation" and ob.reproduced is False:
